@@ -92,7 +92,7 @@ fn any_world(q: &Q) -> [RowF; NROWS] {
     }
     // RocksDB keeps its keys sorted and distinct
     let mut i = 0; while i + 1 < NROWS { if i + 1 < nrows { kani::assume(key_lt(&rows[i].key, &rows[i + 1].key)); } i += 1; }
-    unsafe { WORLD = Some(World { rows, nrows, txs, tx_number: [kani::any(), kani::any()], tx_index: [kani::any(), kani::any()], tip: Header { id: kani::any(), number: kani::any() }, tip_stored: true }); }
+    unsafe { WORLD = Some(World { rows, nrows, txs, tx_number: [kani::any(), kani::any()], tx_index: [kani::any(), kani::any()], tip: Header { id: kani::any(), number: kani::any() }, live_tip: Header { id: kani::any(), number: kani::any() }, tip_stored: true }); }
     rf
 }
 fn world() -> &'static World { unsafe { WORLD.as_ref().unwrap() } }
@@ -112,11 +112,15 @@ fn cells_full_g(filters: bool) {
     let (m, n) = expected(&rf, &q);
     let asc: bool = kani::any();
     let limit: u32 = kani::any(); kani::assume(limit as usize >= NROWS);
+    unsafe { FF_REQUESTED = None; }
     let r = rpc().get_cells(search_key(&q), if asc { Order::Asc } else { Order::Desc }, Uint32(limit), None);
     let w = world();
     match r {
         Err(_) => assert!(false, "SPEC query: a well-formed get_cells query is rejected"),
         Ok(p) => {
+            // descending first page: the seek key must lie above EVERY key that continues the searched prefix, also for scripts whose args continue the searched args
+            // with 0xff bytes up to the documented maximum args length (the model's own keys are too short to show a shorter fill)
+            if !asc { unsafe { assert!(FF_REQUESTED.is_some() && FF_REQUESTED.unwrap() + q.script.alen >= MAX_PREFIX_SEARCH_SIZE, "SPEC query: the descending seek key does not reach above every key whose script args continue the searched args (up to the documented maximum prefix search size): descending order misses those entries"); } }
             assert!(p.objects.len == n, "SPEC query: get_cells does not return exactly the entries that match the search key and every filter");
             let mut j = 0;
             while j < NROWS { if j < n && j < p.objects.len {
@@ -163,7 +167,7 @@ fn capacity_sum_g(filters: bool) {
         Err(_) => assert!(false, "SPEC capacity: a well-formed get_cells_capacity query is rejected"),
         Ok(c) => {
             assert!(c.capacity.0 == sum, "SPEC capacity: get_cells_capacity is not the capacity sum of exactly the cells get_cells returns for the same key");
-            assert!(c.block_hash.0 == w.tip.id && c.block_number == w.tip.number, "SPEC capacity: the reported tip is not the stored tip the sum was read at");
+            assert!(c.block_hash.0 == w.tip.id && c.block_number == w.tip.number, "SPEC capacity: the reported tip is not the tip of the SNAPSHOT the sum was read at");
             kani::cover!(n == 2 && sum > 0, "two cells summed");
         }
     }
